@@ -503,4 +503,735 @@ Proof.
     eapply n_np_last; [apply np_broadcast|exact S2|]. intros [] s3 n3 S3 K3. split; [exact S3|]. eapply K_trans; [exact K1|]. eapply K_trans; [|exact K3]. kk.
   - apply n_ret. auto.
 Qed.
+
+Lemma n_npi {A B} s0 (x : M A) (f : A -> M B) Q :
+  NPi x -> Sz s0 -> 0 <= MyIndex s0 -> (forall a s1 n1, Sz s1 -> K s0 s1 -> nx s1 (f a) (fun b s n2 => Q b s (n1 ++ n2))) -> nx s0 (bind x f) Q.
+Proof. intros Hx Hs Hm Hf. eapply n_call; [apply (Hx s0 Hs Hm)|]. intros a s1 n1 [S1 K1]. apply Hf; auto. Qed.
+Lemma n_npi_last {A} s0 (x : M A) (Q : A -> nstate -> tr_t -> Prop) :
+  NPi x -> Sz s0 -> 0 <= MyIndex s0 -> (forall a s1 n1, Sz s1 -> K s0 s1 -> Q a s1 n1) -> nx s0 x Q.
+Proof. intros Hx Hs Hm Hq. eapply n_conseq; [apply (Hx s0 Hs Hm)|]. cbn. intros a s n [S1 K1]. auto. Qed.
+Ltac ktr := repeat match goal with
+  | |- K ?a ?a => apply K_refl
+  | H : K ?a ?b |- K ?a ?b => exact H
+  | H : K ?a ?b |- K ?a ?c => apply (K_trans a b c H)
+  end.
+Ltac fin S := split; [exact S|ktr].
+
+Lemma np_checkPreCommit : NP (checkPreCommit cfg).
+Proof.
+  intros s0 H. unfold checkPreCommit. apply n_get. destruct (negb _); [apply n_ret; fin H|]. cbv zeta. destruct (_ <? _); [apply n_ret; fin H|].
+  eapply n_np; [apply np_CreatePreBlock|exact H|]. intros pb s1 n1 S1 K1. destruct pb as [b|]; [|apply n_ret; fin S1].
+  apply n_get.
+  eapply n_call with (Qx := fun _ s _ => Sz s /\ K s1 s).
+  { destruct (negb (preBlockProcessed s1)); [|apply n_ret; fin S1]. apply n_ask. intros err c Hc. destruct err; [apply n_ret; fin S1|].
+    apply n_modify. apply n_ret. split; [sz_keep S1|kk]. }
+  intros cont s2 n2 [S2 K2]. destruct (negb cont); [apply n_ret; fin S2|].
+  eapply n_call; [apply n_own_slot; rewrite (sz_pc _ S2); apply (sz_my _ S2)|]. intros ps s3 n3 [-> Hps]. destruct ps.
+  - specialize (Hps eq_refl). eapply n_np; [apply np_verifyCommits|exact S2|]. intros [] s4 n4 S4 K4.
+    eapply n_npi; [apply np_sendCommit|exact S4|rewrite (K_my _ _ K4); exact Hps|]. intros [] s5 n5 S5 K5.
+    apply n_get. eapply n_np; [apply np_changeTimer|exact S5|]. intros [] s6 n6 S6 K6.
+    eapply n_np_last; [apply np_checkCommit|exact S6|]. intros [] s7 n7 S7 K7. fin S7.
+  - eapply n_np; [apply np_WatchOnly|exact S2|]. intros wo s4 n4 S4 K4. apply n_ret. fin S4.
+Qed.
+Hint Resolve np_checkPreCommit : npdb.
+
+Lemma np_checkPrepare : NPi (checkPrepare cfg).
+Proof.
+  intros s0 H Hm. unfold checkPrepare. apply n_get.
+  eapply n_call with (Qx := fun _ s _ => Sz s /\ K s0 s).
+  { destruct (_ || _); [|apply n_ret; fin H]. unfold ask_now. apply n_ask. intros t c Hc. apply n_modify_last. split; [sz_keep H|kk]. }
+  intros [] s1 n1 [S1 K1]. apply n_get. destruct (negb _); [apply n_ret; fin S1|]. cbv zeta. destruct (_ && _); [|apply n_ret; fin S1].
+  assert (Hm1 : 0 <= MyIndex s1) by (rewrite (K_my _ _ K1); exact Hm).
+  destruct (amev_on cfg s1).
+  - eapply n_npi; [apply np_sendPreCommit|exact S1|exact Hm1|]. intros [] s2 n2 S2 K2. apply n_get.
+    eapply n_np; [apply np_changeTimer|exact S2|]. intros [] s3 n3 S3 K3.
+    eapply n_np_last; [apply np_checkPreCommit|exact S3|]. intros [] s4 n4 S4 K4. fin S4.
+  - eapply n_npi; [apply np_sendCommit|exact S1|exact Hm1|]. intros [] s2 n2 S2 K2. apply n_get.
+    eapply n_np; [apply np_changeTimer|exact S2|]. intros [] s3 n3 S3 K3.
+    eapply n_np_last; [apply np_checkCommit|exact S3|]. intros [] s4 n4 S4 K4. fin S4.
+Qed.
+
+Lemma np_sendPrepareRequest force : NPi (sendPrepareRequest cfg force).
+Proof.
+  intros s0 H Hm. unfold sendPrepareRequest.
+  eapply n_np; [apply np_makePrepareRequest|exact H|]. intros m1 s1 n1 S1 K1.
+  eapply n_call with (Qx := fun _ s _ => Sz s /\ K s0 s).
+  { destruct m1; [apply n_ret; fin S1|]. eapply n_np; [apply np_subscribe|exact S1|]. intros [] s2 n2 S2 K2.
+    eapply n_np_last; [apply np_makePrepareRequest|exact S2|]. intros m s3 n3 S3 K3. fin S3. }
+  intros m2 s2 n2 [S2 K2]. destruct m2 as [msg|].
+  - eapply n_np; [apply np_unsubscribe|exact S2|]. intros [] s3 n3 S3 K3. apply n_get.
+    assert (Hm3 : 0 <= MyIndex s3) by (rewrite (K_my _ _ K3), (K_my _ _ K2); exact Hm).
+    ntset. { rewrite (sz_prep _ S3). pose proof (sz_my _ S3). lia. }
+    apply n_modify.
+    assert (S4 : Sz (s3 <| PreparationPayloads := l |>)) by (pose proof (zlen_set _ _ _ _ Hl) as Hz; sz_split S3).
+    assert (K4 : K s3 (s3 <| PreparationPayloads := l |>)) by kk.
+    eapply n_np; [apply np_broadcast|exact S4|]. intros [] s5 n5 S5 K5.
+    eapply n_np; [apply np_updateExistingPayloads|exact S5|]. intros [] s6 n6 S6 K6.
+    unfold ask_now. apply n_ask. intros t c Hc. apply n_modify. apply n_get. cbv zeta.
+    assert (S7 : Sz (s6 <| prepareSentTime := Some t |>)) by (sz_keep S6).
+    assert (K7 : K s6 (s6 <| prepareSentTime := Some t |>)) by kk.
+    eapply n_np; [apply np_changeTimer|exact S7|]. intros [] s8 n8 S8 K8.
+    eapply n_npi_last; [apply np_checkPrepare|exact S8|..].
+    + rewrite (K_my _ _ K8), (K_my _ _ K7), (K_my _ _ K6), (K_my _ _ K5), (K_my _ _ K4). exact Hm3.
+    + intros [] s9 n9 S9 K9. fin S9.
+  - apply n_get. eapply n_np_last; [apply np_changeTimer|exact S2|]. intros [] s3 n3 S3 K3. fin S3.
+Qed.
+
+(* ---------------- functions that can reach the (re)initialisation ---------------- *)
+Definition NQ {A} (x : M A) : Prop := forall s0, Sz s0 -> nx s0 x (fun _ s _ => Sz s).
+Lemma n_nq {A B} s0 (x : M A) (f : A -> M B) Q :
+  NQ x -> Sz s0 -> (forall a s1 n1, Sz s1 -> nx s1 (f a) (fun b s n2 => Q b s (n1 ++ n2))) -> nx s0 (bind x f) Q.
+Proof. intros Hx Hs Hf. eapply n_call; [apply (Hx s0 Hs)|]. intros a s1 n1 S1. apply Hf; auto. Qed.
+Lemma NP_NQ {A} (x : M A) : NP x -> NQ x.
+Proof. intros H s0 Hs. eapply n_conseq; [apply (H s0 Hs)|]. cbn. intros a s n [S1 _]. exact S1. Qed.
+
+Section Rec.
+Variable ic : Z -> Z -> M unit.
+Hypothesis Hic : forall v ts, NQ (ic v ts).
+
+Lemma nq_checkChangeView view : NQ (checkChangeView ic view).
+Proof.
+  intros s0 H. unfold checkChangeView. apply n_get. destruct (_ >=? _); [apply n_ret; exact H|]. cbv zeta. destruct (_ <? _); [apply n_ret; exact H|].
+  eapply n_call; [apply n_WatchOnly|]. intros wo s1 n1 [-> Hw].
+  eapply n_call with (Qx := fun _ s _ => Sz s).
+  { destruct wo; [apply n_ret; exact H|]. specialize (Hw eq_refl). apply n_get.
+    ntget. { rewrite (sz_cv _ H). pose proof (sz_my _ H). lia. }
+    destruct x as [m|]; [|apply n_ret; exact H]. destruct (_ <? _); [|apply n_ret; exact H].
+    unfold ask_now. apply n_ask. intros t c Hc.
+    eapply n_npi; [apply np_makeChangeView|exact H|exact Hw|]. intros msg s2 n2 S2 K2.
+    eapply n_np_last; [apply np_broadcast|exact S2|]. intros [] s3 n3 S3 K3. exact S3. }
+  intros [] s2 n2 S2. apply n_get. eapply n_conseq; [apply (Hic _ _ s2 S2)|]. auto.
+Qed.
+
+Lemma nq_sendChangeView r : NQ (sendChangeView ic r).
+Proof.
+  intros s0 H. unfold sendChangeView. eapply n_call; [apply n_WatchOnly|]. intros wo s1 n1 [-> Hw].
+  destruct wo; [apply n_ret; exact H|]. specialize (Hw eq_refl). apply n_get. cbv zeta.
+  eapply n_np; [apply np_changeTimer|exact H|]. intros [] s2 n2 S2 K2.
+  destruct (_ && _).
+  - eapply n_np_last; [apply np_sendRecoveryRequest|exact S2|]. intros [] s3 n3 S3 K3. exact S3.
+  - unfold ask_now. apply n_ask. intros t c Hc.
+    eapply n_npi; [apply np_makeChangeView|exact S2|rewrite (K_my _ _ K2); exact Hw|]. intros msg s3 n3 S3 K3.
+    eapply n_np; [apply np_StopTxFlow|exact S3|]. intros [] s4 n4 S4 K4.
+    eapply n_np; [apply np_broadcast|exact S4|]. intros [] s5 n5 S5 K5.
+    eapply n_conseq; [apply (nq_checkChangeView _ s5 S5)|]. auto.
+Qed.
+
+(* the block check: when it answers true nothing but the (pre-)header changed *)
+Lemma nq_createAndCheckBlock s0 : Sz s0 ->
+  nx s0 (createAndCheckBlock cfg ic) (fun ok s _ => Sz s /\ (ok = true -> K s0 s /\ PreparationPayloads s = PreparationPayloads s0)).
+Proof.
+  intros H. unfold createAndCheckBlock. apply n_get.
+  eapply n_call with (Qx := fun _ s _ => Sz s /\ K s0 s /\ PreparationPayloads s = PreparationPayloads s0).
+  { destruct (amev_on cfg s0).
+    - eapply n_call; [apply n_conj; [apply (np_CreatePreBlock s0 H)|apply (f_CreatePreBlock cfg s0)]|].
+      intros b s1 n1 ((S1 & K1) & (R1 & _)). apply n_ask_last. intros ok c Hc. split; [exact S1|split; [exact K1|]]. apply R1.
+    - eapply n_call; [apply n_conj; [apply (np_CreateBlock s0 H)|apply (f_CreateBlock cfg s0)]|].
+      intros b s1 n1 ((S1 & K1) & (R1 & _)). apply n_ask_last. intros ok c Hc. split; [exact S1|split; [exact K1|]]. apply R1. }
+  intros ok s1 n1 (S1 & K1 & P1). destruct ok.
+  - apply n_ret. auto.
+  - eapply n_nq; [apply nq_sendChangeView|exact S1|]. intros [] s2 n2 S2. apply n_ret. split; [exact S2|discriminate].
+Qed.
+
+Lemma vpc_prep s0 : hx s0 verifyPreCommitPayloadsAgainstPreBlock (fun _ s _ => PreparationPayloads s = PreparationPayloads s0).
+Proof.
+  unfold verifyPreCommitPayloadsAgainstPreBlock. apply x_get. destruct (negb _); [apply x_ret; reflexivity|].
+  eapply x_conseq.
+  { refine (x_forM (fun s _ => PreparationPayloads s = PreparationPayloads s0) _ _ _ s0 [] eq_refl).
+    intros i s n Hin Hs. apply x_get. apply x_tget. intros x _ _. destruct x as [p|]; [|apply x_ret; exact Hs].
+    destruct (_ =? _); [|apply x_ret; exact Hs].
+    eapply x_rt; [apply (f_CreatePreBlock cfg)|]. intros pb s1 n1 R1 _. cbn beta.
+    assert (P1 : PreparationPayloads s1 = PreparationPayloads s0) by (rewrite <- Hs; apply R1).
+    destruct pb as [b|]; [|apply x_ret; exact P1]. apply x_get. apply x_tget. intros pub _ _.
+    destruct (preblock_verify _ _ _); [apply x_ret; exact P1|]. apply x_tset. intros l _ _. apply x_modify_last. exact P1. }
+  cbn. auto.
+Qed.
+
+Lemma has_req_keep a b : has_req a -> PreparationPayloads b = PreparationPayloads a -> PrimaryIndex b = PrimaryIndex a -> has_req b.
+Proof. intros [q Hq] E1 E2. exists q. rewrite E1, E2. exact Hq. Qed.
+
+(* the tail shared by addTransaction and onPrepareRequest: respond and look for a preparation quorum *)
+Lemma n_respond s0 : Sz s0 -> 0 <= MyIndex s0 -> has_req s0 ->
+  nx s0 (sendPrepareResponse ;;; checkPrepare cfg) (fun _ s _ => Sz s).
+Proof.
+  intros H Hm Hq. eapply n_call; [apply (np_sendPrepareResponse s0 H Hm Hq)|]. intros [] s1 n1 [S1 K1].
+  eapply n_npi_last; [apply np_checkPrepare|exact S1|rewrite (K_my _ _ K1); exact Hm|]. intros [] s2 n2 S2 _. exact S2.
+Qed.
+
+Lemma nq_addTransaction t s0 : Sz s0 -> has_req s0 -> nx s0 (addTransaction cfg ic t) (fun _ s _ => Sz s).
+Proof.
+  intros H Hq. unfold addTransaction. apply n_modify. apply n_get.
+  set (s1 := s0 <| Transactions := tx_put (Transactions s0) (tx_hash t) t |>).
+  assert (S1 : Sz s1) by (unfold s1; sz_keep H). assert (Q1 : has_req s1) by (destruct Hq as [q Hq]; exists q; exact Hq).
+  destruct (negb _); [apply n_ret; exact S1|]. destruct (IsPrimary s1); [apply n_ret; exact S1|].
+  eapply n_call; [apply n_WatchOnly|]. intros wo s2 n2 [-> Hw]. destruct wo; [apply n_ret; exact S1|]. specialize (Hw eq_refl).
+  eapply n_call; [apply (nq_createAndCheckBlock s1 S1)|]. intros ok s3 n3 (S3 & Hok). destruct ok; cbn [negb]; [|apply n_ret; exact S3].
+  destruct (Hok eq_refl) as [K3 P3].
+  eapply n_call; [apply n_conj; [apply (np_verifyPreCommits s3 S3)|apply (vpc_prep s3)]|]. intros [] s4 n4 ((S4 & K4) & P4).
+  eapply n_call; [apply n_conj; [apply (np_extendTimer 2 s4 S4)|apply (f_extendTimer cfg 2 s4)]|]. intros [] s5 n5 ((S5 & K5) & (R5 & _)).
+  apply n_respond; [exact S5|rewrite (K_my _ _ K5), (K_my _ _ K4), (K_my _ _ K3); exact Hw|].
+  eapply has_req_keep; [exact Q1|..].
+  - assert (E5 : PreparationPayloads s5 = PreparationPayloads s4) by apply R5. congruence.
+  - rewrite (K_pi _ _ K5), (K_pi _ _ K4), (K_pi _ _ K3). reflexivity.
+Qed.
+
+Lemma GetPrimaryIndex_eq s v : 0 < N s -> GetPrimaryIndex s v = ret (primary_of s v).
+Proof. intros H. unfold GetPrimaryIndex, primary_of. destruct (N s =? 0) eqn:E; [apply Z.eqb_eq in E; lia|reflexivity]. Qed.
+Lemma K_primary_of a b v : K a b -> primary_of b v = primary_of a v.
+Proof. intros Hk. unfold primary_of. rewrite (K_N _ _ Hk). destruct Hk as (_&_&_&E&_). rewrite E. reflexivity. Qed.
+Lemma K_view a b : K a b -> ViewNumber b = ViewNumber a. Proof. intros (_&_&_&_&E). exact E. Qed.
+
+Lemma nq_onPrepareRequest msg s0 : Sz s0 -> 0 <= p_idx msg < N s0 -> p_type msg = PrepareRequestT ->
+  nx s0 (onPrepareRequest cfg ic msg) (fun _ s _ => Sz s).
+Proof.
+  intros H Hi Ty. unfold onPrepareRequest.
+  eapply n_call; [apply (n_RSOR s0 H)|]. intros rs s1 n1 [-> _]. destruct rs.
+  { eapply n_np; [apply np_ViewChanging|exact H|]. intros vc s2 n2 S2 _. apply n_ret. exact S2. }
+  apply n_get. destruct (negb _); [apply n_ret; exact H|].
+  rewrite (GetPrimaryIndex_eq _ _ (sz_n _ H)). apply n_ret_bind.
+  destruct (p_idx msg =? _) eqn:Ep; cbn [negb]; [|apply n_ret; exact H]. apply Z.eqb_eq in Ep. rewrite <- (sz_pf _ H) in Ep.
+  apply n_ask. intros ok c Hc. destruct ok; cbn [negb].
+  2:{ eapply n_conseq; [apply (nq_sendChangeView _ s0 H)|]. auto. }
+  eapply n_np; [apply np_extendTimer|exact H|]. intros [] s2 n2 S2 K2.
+  unfold p_type in Ty. destruct (p_body msg) as [[]|] eqn:Eb; try discriminate Ty.
+  apply n_modify.
+  match goal with |- nx ?st _ _ => set (s3 := st) end.
+  assert (S3 : Sz s3) by (unfold s3; sz_keep S2). assert (K3 : K s2 s3) by (unfold s3; kk).
+  eapply n_np; [apply np_processMissingTx|exact S3|]. intros [] s4 n4 S4 K4.
+  eapply n_np; [apply np_updateExistingPayloads|exact S4|]. intros [] s5 n5 S5 K5.
+  assert (K05 : K s0 s5) by ktr.
+  apply n_get. ntset. { rewrite (sz_prep _ S5), (K_N _ _ K05). exact Hi. }
+  apply n_modify. apply n_get.
+  match goal with |- nx ?st _ _ => set (s6 := st) end.
+  assert (S6 : Sz s6) by (unfold s6; pose proof (zlen_set _ _ _ _ Hl) as Hz; sz_split S5).
+  assert (K6 : K s0 s6) by (eapply K_trans; [exact K05|unfold s6; kk]).
+  assert (Q6 : has_req s6).
+  { exists msg. unfold s6. cbn [PreparationPayloads PrimaryIndex set]. rewrite (K_pi _ _ K05), <- Ep. eapply nth_set_same; exact Hl. }
+  destruct (negb _); [apply n_ret; exact S6|].
+  eapply n_call; [apply (nq_createAndCheckBlock s6 S6)|]. intros ok s7 n7 (S7 & Hok). destruct ok; cbn [negb]; [|apply n_ret; exact S7].
+  destruct (Hok eq_refl) as [K7 P7].
+  eapply n_call; [apply n_WatchOnly|]. intros wo s8 n8 [-> Hw]. destruct wo; [apply n_ret; exact S7|]. specialize (Hw eq_refl).
+  apply n_respond; [exact S7|exact Hw|]. eapply has_req_keep; [exact Q6|exact P7|apply (K_pi _ _ K7)].
+Qed.
+
+Lemma nq_onPrepareResponse msg s0 : Sz s0 -> 0 <= p_idx msg < N s0 -> nx s0 (onPrepareResponse cfg msg) (fun _ s _ => Sz s).
+Proof.
+  intros H Hi. unfold onPrepareResponse. apply n_get. destruct (negb _); [apply n_ret; exact H|].
+  rewrite (GetPrimaryIndex_eq _ _ (sz_n _ H)). apply n_ret_bind. destruct (p_idx msg =? _); [apply n_ret; exact H|].
+  ntget. { rewrite (sz_prep _ H). exact Hi. }
+  eapply n_call with (Qx := fun _ s _ => Sz s /\ K s0 s).
+  { destruct (isSome x); [apply n_ret; fin H|]. eapply n_np; [apply np_ViewChanging|exact H|]. intros vc s1 n1 S1 K1. apply n_get. apply n_ret. fin S1. }
+  intros skip s1 n1 [S1 K1]. destruct skip.
+  { eapply n_np; [apply np_ViewChanging|exact S1|]. intros vc s2 n2 S2 _. apply n_ret. exact S2. }
+  apply n_ask. intros ok c Hc. destruct ok; cbn [negb]; [|apply n_ret; exact S1].
+  apply n_get. ntset. { rewrite (sz_prep _ S1), (K_N _ _ K1). exact Hi. }
+  apply n_modify. apply n_get.
+  match goal with |- nx ?st _ _ => set (s2 := st) end.
+  assert (S2 : Sz s2) by (unfold s2; pose proof (zlen_set _ _ _ _ Hl) as Hz; sz_split S1).
+  assert (K2 : K s0 s2) by (eapply K_trans; [exact K1|unfold s2; kk]).
+  pose proof (primary_of_range s0 (ViewNumber s0) (sz_n _ H)) as Hpr.
+  ntget. { rewrite (sz_prep _ S2), (K_N _ _ K2). exact Hpr. }
+  eapply n_call with (Qx := fun _ s _ => Sz s /\ K s0 s).
+  { destruct x0 as [r|]; [|apply n_ret; fin S2]. destruct (p_body r) as [[]|]; try (apply n_ret; fin S2).
+    destruct (negb _); [|apply n_ret; fin S2].
+    ntset. { rewrite (sz_prep _ S2), (K_N _ _ K2). exact Hi. }
+    apply n_modify. apply n_ret. split; [pose proof (zlen_set _ _ _ _ Hl0) as Hz; sz_split S2|eapply K_trans; [exact K2|kk]]. }
+  intros mism s3 n3 [S3 K3]. destruct mism; [apply n_ret; exact S3|]. apply n_get.
+  eapply n_call with (Qx := fun _ s _ => Sz s /\ K s0 s).
+  { destruct (_ && _); [|apply n_ret; fin S3]. unfold ask_now. apply n_ask. intros t c2 Hc2.
+    destruct (prepareSentTime s3); [|apply n_ret; fin S3]. eapply n_np_last; [apply np_rtt|exact S3|]. intros [] s4 n4 S4 K4. fin S4. }
+  intros [] s4 n4 [S4 K4].
+  eapply n_np; [apply np_extendTimer|exact S4|]. intros [] s5 n5 S5 K5.
+  eapply n_call; [apply n_WatchOnly|]. intros wo s6 n6 [-> Hw]. destruct wo; [apply n_ret; exact S5|]. specialize (Hw eq_refl).
+  eapply n_np; [apply np_CommitSent|exact S5|]. intros cs s6' n6' S6 K6. destruct cs; [apply n_ret; exact S6|]. apply n_get.
+  eapply n_call with (Qx := fun _ s _ => Sz s /\ K s5 s).
+  { destruct (amev_on cfg s6'); [|apply n_ret; split; [exact S6|exact K6]]. eapply n_np_last; [apply np_PreCommitSent|exact S6|]. intros ps s7 n7 S7 K7. split; [exact S7|ktr]. }
+  intros ps s7 n7 [S7 K7]. destruct ps; [apply n_ret; exact S7|].
+  eapply n_np; [apply np_RSOR|exact S7|]. intros rs s8 n8 S8 K8. destruct rs; [|apply n_ret; exact S8].
+  eapply n_npi_last; [apply np_checkPrepare|exact S8|rewrite (K_my _ _ K8), (K_my _ _ K7); exact Hw|]. intros [] s9 n9 S9 _. exact S9.
+Qed.
+
+Lemma nq_onRecoveryRequest msg : NQ (onRecoveryRequest cfg msg).
+Proof.
+  intros s0 H. unfold onRecoveryRequest. eapply n_call; [apply n_WatchOnly|]. intros wo sw nw [-> Hw]. destruct wo; [apply n_ret; exact H|].
+  eapply n_np; [apply np_CommitSent|exact H|]. intros cs s1 n1 S1 K1. apply n_get.
+  eapply n_call with (Qx := fun _ s _ => Sz s).
+  { destruct cs; [apply n_ret; exact S1|]. destruct (amev_on cfg s1); [|apply n_ret; exact S1].
+    eapply n_np_last; [apply np_PreCommitSent|exact S1|]. intros ps s2 n2 S2 _. exact S2. }
+  intros ps s2 n2 S2. destruct (negb cs && negb ps).
+  - destruct (N s1 =? 0) eqn:E; [apply Z.eqb_eq in E; pose proof (sz_n _ S1); lia|]. destruct (_ >? _); [apply n_ret; exact S2|].
+    eapply n_np_last; [apply np_sendRecoveryMessage|exact S2|]. intros [] s3 n3 S3 _. exact S3.
+  - eapply n_np_last; [apply np_sendRecoveryMessage|exact S2|]. intros [] s3 n3 S3 _. exact S3.
+Qed.
+
+Lemma nq_onChangeView msg s0 : Sz s0 -> 0 <= p_idx msg < N s0 -> nx s0 (onChangeView cfg ic msg) (fun _ s _ => Sz s).
+Proof.
+  intros H Hi. unfold onChangeView. apply n_get. cbv zeta. destruct (_ <=? _); [apply (nq_onRecoveryRequest msg s0 H)|].
+  eapply n_np; [apply np_CommitSent|exact H|]. intros cs s1 n1 S1 K1.
+  eapply n_call with (Qx := fun _ s _ => Sz s /\ K s0 s).
+  { destruct cs; [apply n_ret; fin S1|]. eapply n_np_last; [apply np_PreCommitSent|exact S1|]. intros ps s2 n2 S2 K2. fin S2. }
+  intros ps s2 n2 [S2 K2]. destruct (cs || ps).
+  { eapply n_np_last; [apply np_sendRecoveryMessage|exact S2|]. intros [] s3 n3 S3 _. exact S3. }
+  apply n_get. ntget. { rewrite (sz_cv _ S2), (K_N _ _ K2). exact Hi. }
+  match goal with |- context[if ?b then _ else _] => destruct b end; [apply n_ret; exact S2|].
+  ntset. { rewrite (sz_cv _ S2), (K_N _ _ K2). exact Hi. }
+  apply n_modify.
+  eapply n_conseq; [apply nq_checkChangeView; pose proof (zlen_set _ _ _ _ Hl) as Hz; sz_split S2|]. auto.
+Qed.
+
+Lemma nq_onCommit msg s0 : Sz s0 -> 0 <= p_idx msg < N s0 -> nx s0 (onCommit cfg msg) (fun _ s _ => Sz s).
+Proof.
+  intros H Hi. unfold onCommit. apply n_get. ntget. { rewrite (sz_cm _ H). exact Hi. }
+  destruct (isSome x); [apply n_ret; exact H|].
+  ntset. { rewrite (sz_cm _ H). exact Hi. }
+  apply n_modify.
+  match goal with |- nx ?st _ _ => set (s1 := st) end.
+  assert (S1 : Sz s1).
+  { unfold s1. pose proof (zlen_set _ _ _ _ Hl) as Hz.
+    assert (Hok : idx_ok (N s0) l) by (eapply idx_ok_set; [exact (sz_cmi _ H)| |exact Hl]; intros ? [= <-]; exact Hi). sz_split H. }
+  assert (K1 : K s0 s1) by (unfold s1; kk).
+  assert (Hclr : forall s, Sz s -> K s0 s -> nx s (s' <- get ;; l <- tset (CommitPayloads s') (p_idx msg) None ;; modify (fun s => s <| CommitPayloads := l |>)) (fun _ s _ => Sz s)).
+  { intros s Ss Ks. apply n_get. ntset. { rewrite (sz_cm _ Ss), (K_N _ _ Ks). exact Hi. }
+    apply n_modify_last. pose proof (zlen_set _ _ _ _ Hl0) as Hz.
+    assert (Hok : idx_ok (N s) l0) by (eapply idx_ok_set; [exact (sz_cmi _ Ss)| |exact Hl0]; intros ? [=]). sz_split Ss. }
+  destruct (negb _); [apply n_ret; exact S1|].
+  apply n_ask. intros ok c Hc. destruct ok; cbn [negb]; [|apply (Hclr s1 S1 K1)].
+  eapply n_np; [apply np_extendTimer|exact S1|]. intros [] s2 n2 S2 K2.
+  eapply n_np; [apply np_MakeHeader|exact S2|]. intros hb s3 n3 S3 K3. destruct hb as [b|]; [|apply n_ret; exact S3].
+  assert (K03 : K s0 s3) by ktr.
+  apply n_get. ntget. { unfold N in *. destruct K03 as (E&_). rewrite E. exact Hi. }
+  destruct (block_verify _ _ _).
+  - eapply n_np_last; [apply np_checkCommit|exact S3|]. intros [] s4 n4 S4 _. exact S4.
+  - ntset. { rewrite (sz_cm _ S3), (K_N _ _ K03). exact Hi. }
+    apply n_modify_last. pose proof (zlen_set _ _ _ _ Hl0) as Hz.
+    assert (Hok : idx_ok (N s3) l0) by (eapply idx_ok_set; [exact (sz_cmi _ S3)| |exact Hl0]; intros ? [=]). sz_split S3.
+Qed.
+
+Lemma nq_onPreCommit msg s0 : Sz s0 -> 0 <= p_idx msg < N s0 -> nx s0 (onPreCommit cfg msg) (fun _ s _ => Sz s).
+Proof.
+  intros H Hi. unfold onPreCommit. apply n_get. ntget. { rewrite (sz_pc _ H). exact Hi. }
+  destruct (isSome x); [apply n_ret; exact H|].
+  ntset. { rewrite (sz_pc _ H). exact Hi. }
+  apply n_modify.
+  match goal with |- nx ?st _ _ => set (s1 := st) end.
+  assert (S1 : Sz s1).
+  { unfold s1. pose proof (zlen_set _ _ _ _ Hl) as Hz.
+    assert (Hok : idx_ok (N s0) l) by (eapply idx_ok_set; [exact (sz_pci _ H)| |exact Hl]; intros ? [= <-]; exact Hi). sz_split H. }
+  assert (K1 : K s0 s1) by (unfold s1; kk).
+  assert (Hclr : forall s, Sz s -> K s0 s -> nx s (s' <- get ;; l <- tset (PreCommitPayloads s') (p_idx msg) None ;; modify (fun s => s <| PreCommitPayloads := l |>)) (fun _ s _ => Sz s)).
+  { intros s Ss Ks. apply n_get. ntset. { rewrite (sz_pc _ Ss), (K_N _ _ Ks). exact Hi. }
+    apply n_modify_last. pose proof (zlen_set _ _ _ _ Hl0) as Hz.
+    assert (Hok : idx_ok (N s) l0) by (eapply idx_ok_set; [exact (sz_pci _ Ss)| |exact Hl0]; intros ? [=]). sz_split Ss. }
+  destruct (negb _); [apply n_ret; exact S1|].
+  apply n_ask. intros ok c Hc. destruct ok; cbn [negb]; [|apply (Hclr s1 S1 K1)].
+  eapply n_np; [apply np_extendTimer|exact S1|]. intros [] s2 n2 S2 K2. apply n_get. destruct (negb _); [apply n_ret; exact S2|].
+  eapply n_np; [apply np_CreatePreBlock|exact S2|]. intros hb s3 n3 S3 K3. destruct hb as [b|]; [|apply n_ret; exact S3].
+  assert (K03 : K s0 s3) by ktr.
+  apply n_get. ntget. { unfold N in *. destruct K03 as (E&_). rewrite E. exact Hi. }
+  destruct (preblock_verify _ _ _).
+  - eapply n_np_last; [apply np_checkPreCommit|exact S3|]. intros [] s4 n4 S4 _. exact S4.
+  - ntset. { rewrite (sz_pc _ S3), (K_N _ _ K03). exact Hi. }
+    apply n_modify_last. pose proof (zlen_set _ _ _ _ Hl0) as Hz.
+    assert (Hok : idx_ok (N s3) l0) by (eapply idx_ok_set; [exact (sz_pci _ S3)| |exact Hl0]; intros ? [=]). sz_split S3.
+Qed.
+
+(* association lists *)
+Lemma Forall_assoc_put {T} (P : T -> Prop) l k v : Forall (fun kv => P (snd kv)) l -> P v -> Forall (fun kv : Z * T => P (snd kv)) (assoc_put l k v).
+Proof.
+  intros Hl Hv. induction l as [|[k' v'] r IH]; cbn; [constructor; [exact Hv|constructor]|].
+  apply Forall_cons_iff in Hl. destruct Hl as [H1 H2]. destruct (k' =? k); constructor; auto.
+Qed.
+Lemma Forall_assoc_get {T} (P : T -> Prop) l k v : Forall (fun kv => P (snd kv)) l -> assoc_get l k = Some v -> P v.
+Proof.
+  intros Hl. induction l as [|[k' v'] r IH]; cbn; [discriminate|]. apply Forall_cons_iff in Hl. destruct Hl as [H1 H2].
+  destruct (k' =? k); [intros [= <-]; exact H1|auto].
+Qed.
+Lemma Forall_assoc_del {T} (P : T -> Prop) (l : list (Z * T)) k : Forall (fun kv => P (snd kv)) l -> Forall (fun kv => P (snd kv)) (assoc_del l k).
+Proof. intros H. unfold assoc_del. apply Forall_forall. intros x Hx. apply filter_In in Hx. rewrite Forall_forall in H. apply H, Hx. Qed.
+Lemma wf_empty_inbox : wf_inbox empty_inbox. Proof. repeat split; constructor. Qed.
+
+Lemma nq_cache_addMessage m : wfp m -> NQ (cache_addMessage m).
+Proof.
+  intros Hm s0 H. unfold cache_addMessage. apply n_get. rewrite (sz_cr _ (sz_0 _ H)). cbn [negb]. cbv zeta. apply n_modify_last.
+  assert (Hib : wf_inbox match assoc_get (cache s0) (p_height m) with Some x => x | None => empty_inbox end).
+  { destruct (assoc_get (cache s0) (p_height m)) eqn:E; [|apply wf_empty_inbox]. eapply (Forall_assoc_get wf_inbox); [exact (sz_cache _ (sz_0 _ H))|exact E]. }
+  set (ib := match assoc_get (cache s0) (p_height m) with Some x => x | None => empty_inbox end) in *.
+  assert (Hc : cache_wf (assoc_put (cache s0) (p_height m)
+     match p_type m with
+     | PrepareRequestT | PrepareResponseT => ib <| ib_prepare := assoc_put (ib_prepare ib) (p_idx m) m |>
+     | ChangeViewT => ib <| ib_chviews := assoc_put (ib_chviews ib) (p_idx m) m |>
+     | PreCommitT => ib <| ib_precommit := assoc_put (ib_precommit ib) (p_idx m) m |>
+     | CommitT => ib <| ib_commit := assoc_put (ib_commit ib) (p_idx m) m |>
+     | _ => ib end)).
+  { apply (Forall_assoc_put wf_inbox); [exact (sz_cache _ (sz_0 _ H))|]. destruct Hib as (W1 & W2 & W3 & W4).
+    destruct (p_type m); unfold wf_inbox; cbn; repeat split; auto; apply (Forall_assoc_put wfp); auto. }
+  destruct H as [H0 ? ? ? ? ? ? ? ? ? ? ? ?]; destruct H0; constructor; [constructor|..]; unfold N, primary_of, idx_ok in *; cbn in *; try assumption.
+Qed.
+
+Lemma nq_receive_common (d : payload -> M unit) msg s0 : Sz s0 -> wfp msg ->
+  (forall s, Sz s -> 0 <= p_idx msg < N s -> nx s (d msg) (fun _ s' _ => Sz s')) ->
+  nx s0 (receive_common d msg) (fun _ s _ => Sz s).
+Proof.
+  intros H Hw Hd. unfold receive_common. apply n_get. destruct (p_idx msg >=? N s0) eqn:E1; [apply n_ret; exact H|].
+  assert (Hi : 0 <= p_idx msg < N s0) by (rewrite Z.geb_leb in E1; apply Z.leb_gt in E1; destruct Hw; lia).
+  destruct (_ <? _); [apply n_ret; exact H|]. destruct (_ || _).
+  { eapply n_conseq; [apply (nq_cache_addMessage msg Hw s0 H)|]. auto. }
+  ntget. { rewrite (sz_ls _ H). exact Hi. }
+  eapply n_call with (Qx := fun _ s _ => Sz s /\ K s0 s).
+  { match goal with |- context[if ?b then _ else _] => destruct b end; [|apply n_ret; fin H].
+    ntset. { rewrite (sz_ls _ H). exact Hi. } apply n_modify_last. split; [pose proof (zlen_set _ _ _ _ Hl) as Hz; sz_split H|kk]. }
+  intros [] s1 n1 [S1 K1]. apply n_get. destruct (_ && _); [apply n_ret; exact S1|].
+  eapply n_conseq; [apply (Hd s1 S1); rewrite (K_N _ _ K1); exact Hi|]. auto.
+Qed.
+
+Lemma nq_dispatch0 msg s0 : Sz s0 -> 0 <= p_idx msg < N s0 -> nx s0 (dispatch0 cfg ic msg) (fun _ s _ => Sz s).
+Proof.
+  intros H Hi. unfold dispatch0. destruct (p_type msg) eqn:Ty.
+  all: first [ apply nq_onChangeView; assumption | apply nq_onPrepareRequest; assumption | apply nq_onPrepareResponse; assumption
+             | apply nq_onCommit; assumption | apply nq_onRecoveryRequest; assumption
+             | apply n_get; destruct (amev_on cfg s0); [apply nq_onPreCommit; assumption|apply n_ret; exact H]
+             | apply n_ret; exact H ].
+Qed.
+
+Lemma nq_nestedReceive0 msg : wfp msg -> NQ (nestedReceive0 cfg ic msg).
+Proof.
+  intros Hw s0 H. unfold nestedReceive0, ask_recv, ask_unit. apply n_ask. intros [] c Hc.
+  eapply n_conseq; [apply (nq_receive_common _ msg s0 H Hw); intros s Ss Hi; apply nq_dispatch0; assumption|]. auto.
+Qed.
+
+Lemma NQ_forM {T} (P : T -> Prop) (l : list T) (f : T -> M unit) : (forall a, P a -> NQ (f a)) -> Forall P l -> NQ (forM l f).
+Proof.
+  intros Hf Hl. induction l as [|a l IH]; cbn [forM]; [intros s0 H; apply n_ret; exact H|].
+  apply Forall_cons_iff in Hl. destruct Hl as [Ha Hl]. intros s0 H. eapply n_nq; [apply (Hf a Ha)|exact H|]. intros [] s1 n1 S1.
+  eapply n_conseq; [apply (IH Hl s1 S1)|]. auto.
+Qed.
+
+Lemma lifted_wf inner (f : payload0 -> bool) : Forall (fun q => 0 <= p0_idx q) inner -> Forall wfp (map lift0 (filter f inner)).
+Proof.
+  intros H. apply Forall_forall. intros x Hx. apply in_map_iff in Hx. destruct Hx as (q & <- & Hq). apply filter_In in Hq.
+  rewrite Forall_forall in H. split; [apply H, Hq|exact I].
+Qed.
+
+Lemma nq_onRecoveryMessage msg s0 : Sz s0 -> wfp msg -> p_type msg = RecoveryMessageT ->
+  nx s0 (onRecoveryMessage cfg ic msg) (fun _ s _ => Sz s).
+Proof.
+  intros H [_ Hw] Ty. unfold onRecoveryMessage. unfold p_type in Ty. destruct (p_body msg) as [b|inner]; [destruct b; discriminate Ty|].
+  cbv zeta. apply n_modify. apply n_get.
+  match goal with |- nx ?st _ _ => set (s1 := st) end.
+  assert (S1 : Sz s1) by (unfold s1; sz_keep H).
+  pose proof (fun f => NQ_forM wfp _ _ (fun a Ha => nq_nestedReceive0 a Ha) (lifted_wf inner f Hw)) as Hfor.
+  eapply n_call with (Qx := fun _ s _ => Sz s).
+  { destruct (_ >? _); [|apply n_ret; exact S1].
+    eapply n_np; [apply np_CommitSent|exact S1|]. intros cs s2 n2 S2 K2.
+    eapply n_call with (Qx := fun _ s _ => Sz s).
+    { destruct cs; [apply n_ret; exact S2|]. eapply n_np_last; [apply np_PreCommitSent|exact S2|]. intros ps s3 n3 S3 _. exact S3. }
+    intros ps s3 n3 S3. destruct (cs || ps); [apply n_ret; exact S3|].
+    eapply n_nq; [apply Hfor|exact S3|]. intros [] s4 n4 S4. apply n_ret. exact S4. }
+  intros stop s2 n2 S2.
+  eapply n_call with (Qx := fun _ s _ => Sz s).
+  { destruct stop; [apply n_ret; exact S2|]. apply n_get.
+    eapply n_call with (Qx := fun _ s _ => Sz s).
+    { destruct (_ =? _); [|apply n_ret; exact S2].
+      eapply n_np; [apply np_ViewChanging|exact S2|]. intros vc s3 n3 S3 K3. apply n_get.
+      destruct (_ || _); [|apply n_ret; exact S3].
+      eapply n_np; [apply np_CommitSent|exact S3|]. intros cs s4 n4 S4 K4. destruct cs; [apply n_ret; exact S4|].
+      eapply n_call with (Qx := fun _ s _ => Sz s).
+      { destruct (amev_on cfg s3); [|apply n_ret; exact S4]. eapply n_np_last; [apply np_PreCommitSent|exact S4|]. intros ps s5 n5 S5 _. exact S5. }
+      intros ps s5 n5 S5. apply n_ret. exact S5. }
+    intros go s3 n3 S3.
+    eapply n_call with (Qx := fun _ s _ => Sz s).
+    { destruct go; [|apply n_ret; exact S3].
+      eapply n_np; [apply np_RSOR|exact S3|]. intros rs s4 n4 S4 K4.
+      eapply n_call with (Qx := fun _ s _ => Sz s).
+      { destruct (negb rs); [|apply n_ret; exact S4].
+        pose proof (lifted_wf inner (fun q => mtype_eqb (body0_type (p0_body q)) PrepareRequestT) Hw) as Hl.
+        destruct (map lift0 _) as [|r rest]; [apply n_ret; exact S4|]. apply Forall_cons_iff in Hl. destruct Hl as [Hr _].
+        eapply n_conseq; [apply (nq_nestedReceive0 r Hr s4 S4)|]. auto. }
+      intros [] s5 n5 S5. eapply n_conseq; [apply (Hfor _ s5 S5)|]. auto. }
+    intros [] s4 n4 S4. apply n_get. destruct (_ <=? _); [|apply n_ret; exact S4].
+    eapply n_nq; [apply Hfor|exact S4|]. intros [] s5 n5 S5. eapply n_conseq; [apply (Hfor _ s5 S5)|]. auto. }
+  intros [] s3 n3 S3. apply n_modify_last. sz_keep S3.
+Qed.
+
+Lemma nq_dispatch msg s0 : Sz s0 -> wfp msg -> 0 <= p_idx msg < N s0 -> nx s0 (dispatch cfg ic msg) (fun _ s _ => Sz s).
+Proof.
+  intros H Hw Hi. unfold dispatch. destruct (p_type msg) eqn:Ty; try (apply nq_dispatch0; assumption).
+  apply nq_onRecoveryMessage; assumption.
+Qed.
+Lemma nq_OnReceive msg : wfp msg -> NQ (OnReceive cfg ic msg).
+Proof. intros Hw s0 H. unfold OnReceive. apply nq_receive_common; [exact H|exact Hw|]. intros s Ss Hi. apply nq_dispatch; assumption. Qed.
+
+Lemma nq_replay_map n : forall entries, wf_entries entries -> NQ (replay_map cfg ic n entries).
+Proof.
+  induction n as [|n IH]; intros entries Hw s0 H; destruct entries as [|e entries']; cbn [replay_map]; try (apply n_ret; exact H).
+  apply n_ask. intros k c Hc. destruct (assoc_get (e :: entries') k) as [m|] eqn:Em; [|apply n_ret; exact H].
+  eapply n_nq; [apply nq_OnReceive; apply (Forall_assoc_get wfp _ _ _ Hw Em)|exact H|]. intros [] s1 n1 S1.
+  eapply n_conseq; [apply (IH _ (Forall_assoc_del wfp _ k Hw) s1 S1)|]. auto.
+Qed.
+End Rec.
+
+(* ---------------- (re)initialisation ---------------- *)
+Lemma n_keep n : forall i view cvs last s0, (i + n <= length cvs)%nat -> length last = length cvs ->
+  nx s0 (keep_changeviews i n view cvs last) (fun l s _ => s = s0 /\ length l = length last).
+Proof.
+  induction n as [|n IH]; intros i view cvs last s0 Hi Hl; cbn [keep_changeviews]; [apply n_ret; auto|].
+  ntget. { unfold zlen. lia. } cbv zeta. ntset. { unfold zlen. lia. }
+  pose proof (set_chk_length _ _ _ _ Hl0) as E.
+  eapply n_conseq; [apply IH; [lia|congruence]|]. cbn. intros l' s n' [-> E2]. split; [reflexivity|congruence].
+Qed.
+
+Record Mid (view : Z) (s : nstate) : Prop := {
+  md_0 : Sz0 s; md_n : 0 < N s; md_lcv : zlen (LastChangeViewPayloads s) = N s; md_ls : zlen (LastSeenMessage s) = N s;
+  md_keep : view <> 0 -> zlen (PreCommitPayloads s) = N s /\ zlen (CommitPayloads s) = N s /\ idx_ok (N s) (CommitPayloads s) /\ idx_ok (N s) (PreCommitPayloads s) }.
+
+Definition PreIC (view : Z) (s : nstate) : Prop := Sz0 s /\ (view <> 0 -> Sz s).
+
+Lemma n_reset_A view (ts : Z) s0 : PreIC view s0 ->
+  nx s0 ((if view =? 0 then
+            ph <- ask (fun c => match c with CPrevHash x => Some x | _ => None end) ;;
+            h <- ask (fun c => match c with CHeight x => Some x | _ => None end) ;;
+            vs <- ask (fun c => match c with CValidators x => if zlen x =? 0 then None else Some x | _ => None end) ;;
+            tpb <- ask (fun c => match c with CTimePerBlock x => Some x | _ => None end) ;;
+            modify (fun s => s <| PrevHash := ph |> <| BlockIndex := u32 (h + 1) |> <| Validators := vs |> <| timePerBlock := tpb |>) ;;;
+            (if cfg_dyn cfg then
+               mx <- ask (fun c => match c with CMaxTimePerBlock x => Some x | _ => None end) ;;
+               modify (fun s => s <| maxTimePerBlock := mx |>)
+             else ret tt) ;;;
+            modify (fun s => let n := N s in
+                      s <| LastChangeViewPayloads := empty_tbl n |> <| LastSeenMessage := empty_tbl n |>
+                        <| blockProcessed := false |> <| preBlockProcessed := false |>)
+          else
+            s <- get ;;
+            l <- keep_changeviews 0 (length (Validators s)) view (ChangeViewPayloads s) (LastChangeViewPayloads s) ;;
+            modify (fun s => s <| LastChangeViewPayloads := l |>)))
+     (fun _ s _ => Mid view s).
+Proof.
+  intros [P0 P1]. destruct (view =? 0) eqn:Ev.
+  - apply Z.eqb_eq in Ev. apply n_ask. intros ph c1 H1. apply n_ask. intros h c2 H2. apply n_ask. intros vs c3 H3. apply n_ask. intros tpb c4 H4.
+    assert (Hvs : 0 < zlen vs).
+    { destruct c3; try discriminate H3. destruct (zlen vs0 =? 0) eqn:E; [discriminate H3|]. injection H3 as <-. apply Z.eqb_neq in E. pose proof (zlen_nonneg vs0). lia. }
+    apply n_modify.
+    assert (Hfin : forall s, Sz0 s -> 0 < N s -> nx s (modify (fun s => let n := N s in
+                      s <| LastChangeViewPayloads := empty_tbl n |> <| LastSeenMessage := empty_tbl n |>
+                        <| blockProcessed := false |> <| preBlockProcessed := false |>)) (fun _ s' _ => Mid view s')).
+    { intros s Hs Hn. apply n_modify_last. cbv zeta. destruct Hs. constructor; [constructor|..]; unfold N, empty_tbl in *; cbn; try assumption.
+      - apply zlen_replicate. lia. - apply zlen_replicate. lia. - intros Hne. contradiction. }
+    destruct (cfg_dyn cfg).
+    + apply n_assoc. apply n_ask. intros mx c5 H5. apply n_modify. apply Hfin; [destruct P0; constructor; cbn; assumption|unfold N; cbn; exact Hvs].
+    + apply n_ret_bind. apply Hfin; [destruct P0; constructor; cbn; assumption|unfold N; cbn; exact Hvs].
+  - apply Z.eqb_neq in Ev. specialize (P1 Ev). apply n_get.
+    eapply n_call.
+    { apply n_keep; cbn [ChangeViewPayloads LastChangeViewPayloads Validators set].
+      - pose proof (sz_cv _ P1). unfold N, zlen in *. lia.
+      - pose proof (sz_cv _ P1). pose proof (sz_lcv _ P1). unfold N, zlen in *. lia. }
+    intros l s1 n1 [-> Hl]. cbn [LastChangeViewPayloads set] in Hl. apply n_modify_last.
+    destruct P1 as [Q0 ? ? ? ? ? ? ? ? ? ? ? ?]. destruct Q0. constructor; [constructor|..]; unfold N, zlen, idx_ok in *; cbn; try assumption; try lia.
+    intros _. split; [assumption|split; [assumption|split; assumption]].
+Qed.
+
+Lemma GetPrimaryIndex_eq' s v : 0 < N s -> GetPrimaryIndex s v = ret (primary_of s v).
+Proof. intros H. unfold GetPrimaryIndex, primary_of. destruct (N s =? 0) eqn:E; [apply Z.eqb_eq in E; exfalso; apply (Z.lt_irrefl 0); rewrite <- E at 2; exact H|reflexivity]. Qed.
+Lemma sel_KeyPair s c ik :
+  match c with
+  | CKeyPair i k => if i =? -1 then Some (i, k) else
+                    if (0 <=? i) && (i <? N s) && match nth_chk (Validators s) (Z.to_nat i) with Some k' => k' =? k | None => false end
+                    then Some (i, k) else None
+  | _ => None end = Some ik -> -1 <= fst ik < N s \/ (fst ik = -1).
+Proof.
+  destruct c; try discriminate. destruct (idx =? -1) eqn:E1.
+  - intros [= <-]. apply Z.eqb_eq in E1. right. exact E1.
+  - destruct (_ && _) eqn:E2; [|discriminate]. intros [= <-]. cbn [fst].
+    apply andb_true_iff in E2. destruct E2 as [E2 _]. apply andb_true_iff in E2. destruct E2 as [A B]. apply Z.leb_le in A. apply Z.ltb_lt in B. left. lia.
+Qed.
+
+Lemma n_reset view ts s0 : PreIC view s0 -> nx s0 (reset cfg view ts) (fun _ s _ => Sz s).
+Proof.
+  intros HP. unfold reset. apply n_modify. unfold unsubscribeFromTransactions at 1. apply n_modify.
+  match goal with |- nx ?st _ _ => set (s0' := st) end.
+  assert (HP' : PreIC view s0').
+  { destruct HP as [P0 P1]. split; [destruct P0; constructor; cbn; assumption|]. intros Hv. specialize (P1 Hv). pose proof (sz_n _ P1). unfold s0'. sz_split P1. }
+  eapply n_call; [apply (n_reset_A view ts s0' HP')|]. intros [] s1 n1 M1. apply n_get.
+  apply n_ask. intros ik c Hc. apply sel_KeyPair in Hc.
+  assert (Hmy : -1 <= fst ik < N s1) by (pose proof (md_n _ _ M1); destruct Hc; lia).
+  apply n_modify. apply n_modify.
+  eapply n_call with (Qx := fun _ s _ => Mid 1 s /\ N s = N s1 /\ MyIndex s = fst ik /\ zlen (ChangeViewPayloads s) = N s /\ BlockIndex s = BlockIndex s1).
+  { assert (Hcv : zlen (@empty_tbl payload (N s1)) = N s1) by (apply zlen_replicate; pose proof (md_n _ _ M1); lia).
+    destruct (view =? 0) eqn:Ev.
+    - apply n_modify_last. destruct M1 as [Q0 ? ? ? ?]. destruct Q0. unfold N, empty_tbl in *. cbn.
+      split; [|split; [reflexivity|split; [reflexivity|split; [exact Hcv|reflexivity]]]].
+      constructor; [constructor|..]; unfold N, empty_tbl; cbn; try assumption.
+      intros _. rewrite !zlen_replicate by lia. split; [reflexivity|split; [reflexivity|split; apply tall_empty]].
+    - apply n_ret. apply Z.eqb_neq in Ev. destruct M1 as [Q0 ? ? ? Hk]. destruct Q0. destruct (Hk Ev) as (A & B & C & D). unfold N, empty_tbl, idx_ok in *. cbn.
+      split; [|split; [reflexivity|split; [reflexivity|split; [exact Hcv|reflexivity]]]].
+      constructor; [constructor|..]; unfold N, idx_ok; cbn; try assumption.
+      intros _. split; [assumption|split; [assumption|split; assumption]]. }
+  intros [] s2 n2 (M2 & N2 & My2 & Cv2 & B2). apply n_modify. apply n_get.
+  match goal with |- nx ?st _ _ => set (s3 := st) end.
+  assert (N3 : N s3 = N s2) by reflexivity.
+  rewrite (GetPrimaryIndex_eq' s3 view) by (rewrite N3; apply (md_n _ _ M2)). apply n_ret_bind. apply n_modify. apply n_get.
+  match goal with |- nx ?st _ _ => set (s4 := st) end.
+  pose proof (md_n _ _ M2) as Hn2. pose proof (primary_of_range s3 view ltac:(rewrite N3; exact Hn2)) as Hpr.
+  assert (Hprep : zlen (@empty_tbl payload (N s2)) = N s2) by (apply zlen_replicate; lia).
+  assert (S4 : Sz s4).
+  { destruct M2 as [Q0 ? ? ? Hk]. destruct Q0. destruct (Hk ltac:(lia)) as (A & B & C & D).
+    unfold s4, s3, N, empty_tbl, idx_ok, primary_of in *. cbn in *.
+    constructor; [constructor|..]; unfold N, idx_ok, primary_of; cbn; try assumption; try lia. reflexivity. }
+  destruct (MyIndex s4 >=? 0) eqn:Em.
+  - rewrite Z.geb_leb in Em. apply Z.leb_le in Em.
+    ntset. { rewrite (sz_ls _ S4). pose proof (sz_my _ S4). lia. }
+    apply n_modify_last. pose proof (zlen_set _ _ _ _ Hl) as Hz. sz_split S4.
+  - apply n_ret. exact S4.
+Qed.
+
+Lemma cache_wf_filter c (f : Z * inbox -> bool) : cache_wf c -> cache_wf (filter f c).
+Proof. intros H. apply Forall_forall. intros x Hx. apply filter_In in Hx. unfold cache_wf in H. rewrite Forall_forall in H. apply H, Hx. Qed.
+
+Lemma nq_ic_body ic view ts s0 : (forall v t, NQ (ic v t)) -> PreIC view s0 ->
+  nx s0 (initializeConsensus_body cfg ic view ts) (fun _ s _ => Sz s).
+Proof.
+  intros Hic HP. unfold initializeConsensus_body.
+  eapply n_call; [apply (n_reset view ts s0 HP)|]. intros [] s1 n1 S1. apply n_get.
+  eapply n_call with (Qx := fun _ s _ => Sz s).
+  { destruct (IsPrimary s1); [apply n_ret; exact S1|]. eapply n_np; [apply np_WatchOnly|exact S1|]. intros wo s2 n2 S2 _. apply n_ret. exact S2. }
+  intros [] s2 n2 S2.
+  eapply n_np; [apply np_StopTxFlow|exact S2|]. intros [] s3 n3 S3 K3. apply n_modify. apply n_get.
+  match goal with |- nx ?st _ _ => set (s4 := st) end.
+  assert (S4 : Sz s4).
+  { pose proof (cache_wf_filter (cache s3) (fun kv => negb (fst kv <? BlockIndex s3)) (sz_cache _ (sz_0 _ S3))) as Hf. unfold s4.
+    destruct S3 as [Q0 ? ? ? ? ? ? ? ? ? ? ? ?]; destruct Q0; constructor; [constructor|..]; unfold N, primary_of, idx_ok in *; cbn in *; try assumption. }
+  eapply n_call with (Qx := fun _ s _ => Sz s).
+  { destruct (assoc_get (cache s4) (BlockIndex s4)) as [ib|] eqn:Eib; [|apply n_ret; exact S4].
+    pose proof (Forall_assoc_get wf_inbox _ _ _ (sz_cache _ (sz_0 _ S4)) Eib) as (W1 & W2 & W3 & W4).
+    apply n_modify.
+    match goal with |- nx ?st _ _ => set (s5 := st) end.
+    assert (S5 : Sz s5).
+    { pose proof (Forall_assoc_del wf_inbox (cache s4) (BlockIndex s4) (sz_cache _ (sz_0 _ S4))) as Hd. unfold s5.
+      destruct S4 as [Q0 ? ? ? ? ? ? ? ? ? ? ? ?]; destruct Q0; constructor; [constructor|..]; unfold N, primary_of, idx_ok in *; cbn in *; try assumption. }
+    eapply n_nq; [apply (nq_replay_map ic Hic _ _ W1)|exact S5|]. intros [] s6 n6 S6.
+    eapply n_nq; [apply (nq_replay_map ic Hic _ _ W2)|exact S6|]. intros [] s7 n7 S7.
+    eapply n_nq; [apply (nq_replay_map ic Hic _ _ W3)|exact S7|]. intros [] s8 n8 S8.
+    eapply n_conseq; [apply (nq_replay_map ic Hic _ _ W4 s8 S8)|]. auto. }
+  intros [] s5 n5 S5.
+  eapply n_np; [apply np_WatchOnly|exact S5|]. intros wo s6 n6 S6 K6. destruct wo; [apply n_ret; exact S6|]. apply n_get. cbv zeta.
+  eapply n_call with (Qx := fun _ s _ => Sz s).
+  { destruct (_ && _); [|apply n_ret; exact S6]. unfold ask_now. apply n_ask. intros t c Hc. apply n_ret. exact S6. }
+  intros tmo s7 n7 S7. eapply n_np_last; [apply np_changeTimer|exact S7|]. intros [] s8 n8 S8 _. exact S8.
+Qed.
+
+Lemma nq_initializeConsensus fuel : forall view ts s0, PreIC view s0 -> nx s0 (initializeConsensus cfg fuel view ts) (fun _ s _ => Sz s).
+Proof.
+  induction fuel as [|f IH]; intros view ts s0 HP; cbn [initializeConsensus]; [apply n_oof|].
+  apply nq_ic_body; [|exact HP]. intros v t s Ss. apply IH. split; [apply (sz_0 _ Ss)|intros _; exact Ss].
+Qed.
+Lemma nq_init view ts : NQ (init cfg view ts).
+Proof. intros s0 H. apply nq_initializeConsensus. split; [apply (sz_0 _ H)|intros _; exact H]. Qed.
+
+(* ---------------- the API ---------------- *)
+(* before Start only the round-trip table must be in place (it is, in a fresh instance) *)
+Definition Fresh (s : nstate) : Prop := zlen (rtt_times s) = rttLength /\ 0 <= rtt_idx s < rttLength.
+Lemma Fresh_fresh : Fresh fresh_state. Proof. split; [reflexivity|]. unfold rttLength. cbn. lia. Qed.
+
+Lemma n_Start ts s0 : Fresh s0 \/ Sz s0 -> nx s0 (Start cfg ts) (fun _ s _ => Sz s).
+Proof.
+  intros H0. unfold Start. apply n_modify.
+  eapply n_call.
+  { apply nq_initializeConsensus. split; [|intros Hne; exfalso; apply Hne; reflexivity].
+    destruct H0 as [[A B]|S]; [|destruct (sz_0 _ S)]; constructor; cbn; try assumption; try reflexivity; constructor. }
+  intros [] s1 n1 S1. apply n_get. destruct (IsPrimary s1); [|apply n_ret; exact S1].
+  eapply n_call; [apply n_WatchOnly|]. intros wo s2 n2 [-> Hw]. destruct wo; [apply n_ret; exact S1|].
+  eapply n_npi_last; [apply np_sendPrepareRequest|exact S1|exact (Hw eq_refl)|]. intros [] s3 n3 S3 _. exact S3.
+Qed.
+Lemma nq_Reset ts : NQ (Reset cfg ts). Proof. apply nq_init. Qed.
+
+Lemma nq_OnTransaction t : NQ (OnTransaction cfg t).
+Proof.
+  intros s0 H. unfold OnTransaction. apply n_get. destruct (negb _); [apply n_ret; exact H|].
+  eapply n_np; [apply np_NotAccepting|exact H|]. intros na s1 n1 S1 K1. destruct na; [apply n_ret; exact S1|].
+  eapply n_call; [apply (n_RSOR s1 S1)|]. intros rs s2 n2 [-> Hrs]. destruct rs; cbn [negb]; [|apply n_ret; exact S1]. specialize (Hrs eq_refl).
+  eapply n_call; [apply n_own_slot; rewrite (sz_prep _ S1); apply (sz_my _ S1)|]. intros x s2 n2a [-> _]. destruct x; [apply n_ret; exact S1|].
+  eapply n_call; [apply n_own_slot; rewrite (sz_pc _ S1); apply (sz_my _ S1)|]. intros x s2 n2b [-> _]. destruct x; [apply n_ret; exact S1|].
+  eapply n_call; [apply n_own_slot; rewrite (sz_cm _ S1); apply (sz_my _ S1)|]. intros x s2 n2c [-> _]. destruct x; [apply n_ret; exact S1|].
+  apply n_get. destruct (_ || _); [apply n_ret; exact S1|]. cbv zeta. destruct (_ <? _); [apply n_ret; exact S1|]. apply n_modify.
+  apply (nq_addTransaction (init cfg) nq_init).
+  - sz_keep S1.
+  - destruct Hrs as [q Hq]. exists q. exact Hq.
+Qed.
+
+Lemma nq_onTimeout h v force : NQ (onTimeout cfg h v force).
+Proof.
+  intros s0 H. unfold onTimeout. eapply n_call; [apply n_WatchOnly|]. intros wo s1 n1 [-> Hw]. apply n_get.
+  destruct wo; cbn [orb]; [apply n_ret; exact H|]. specialize (Hw eq_refl). destruct (blockProcessed s0); [apply n_ret; exact H|].
+  destruct (_ || _); [apply n_ret; exact H|].
+  eapply n_call with (Qx := fun _ s _ => Sz s /\ K s0 s).
+  { destruct (IsPrimary s0); [|apply n_ret; fin H]. eapply n_np_last; [apply np_RSOR|exact H|]. intros rs s2 n2 S2 K2. fin S2. }
+  intros rs s2 n2 [S2 K2]. assert (Hm2 : 0 <= MyIndex s2) by (rewrite (K_my _ _ K2); exact Hw).
+  destruct (_ && _).
+  { eapply n_npi_last; [apply np_sendPrepareRequest|exact S2|exact Hm2|]. intros [] s3 n3 S3 _. exact S3. }
+  destruct (_ || _); [|apply n_ret; exact S2].
+  eapply n_np; [apply np_CommitSent|exact S2|]. intros cs s3 n3 S3 K3.
+  eapply n_call with (Qx := fun _ s _ => Sz s).
+  { destruct cs; [apply n_ret; exact S3|]. eapply n_np_last; [apply np_PreCommitSent|exact S3|]. intros ps s4 n4 S4 _. exact S4. }
+  intros ps s4 n4 S4. destruct (cs || ps).
+  { eapply n_np; [apply np_sendRecoveryMessage|exact S4|]. intros [] s5 n5 S5 K5. apply n_get.
+    eapply n_np_last; [apply np_changeTimer|exact S5|]. intros [] s6 n6 S6 _. exact S6. }
+  apply n_get.
+  eapply n_call with (Qx := fun _ s _ => Sz s).
+  { destruct (_ && _); [|apply n_ret; exact S4]. destruct force.
+    - eapply n_np; [apply np_changeTimer|exact S4|]. intros [] s5 n5 S5 K5.
+      eapply n_np; [apply np_unsubscribe|exact S5|]. intros [] s6 n6 S6 K6. apply n_ret. exact S6.
+    - destruct (negb _); [|apply n_ret; exact S4]. apply n_ask. intros txx c Hc. destruct (_ =? _); [|apply n_ret; exact S4].
+      eapply n_np; [apply np_subscribe|exact S4|]. intros [] s5 n5 S5 K5. apply n_get.
+      eapply n_np; [apply np_changeTimer|exact S5|]. intros [] s6 n6 S6 K6. apply n_ret. exact S6. }
+  intros stop s5 n5 S5. destruct stop; [apply n_ret; exact S5|].
+  eapply n_conseq; [apply (nq_sendChangeView (init cfg) nq_init _ s5 S5)|]. auto.
+Qed.
+Lemma nq_OnTimeout h v : NQ (OnTimeout cfg h v). Proof. apply nq_onTimeout. Qed.
+Lemma nq_OnNewTransaction : NQ (OnNewTransaction cfg).
+Proof.
+  intros s0 H. unfold OnNewTransaction. apply n_get. destruct (negb _); [apply n_ret; exact H|].
+  apply n_ask. intros h c Hc. apply n_ask. intros v c2 Hc2. apply (nq_onTimeout h v true s0 H).
+Qed.
+
+(* well-formed API calls: payload indices are unsigned (the Go type is uint16), also inside recovery messages *)
+Definition wf_event (e : event) : Prop := match e with EReceive p => wfp p | _ => True end.
+
+Theorem no_panic_step st ev sc : Sz st -> wf_event ev -> step cfg st ev sc <> Panic /\ (forall st' tr, step cfg st ev sc = Ok (st', tr) -> Sz st').
+Proof.
+  intros HS Hw.
+  assert (Hx : nx st (run_event cfg ev) (fun _ s _ => Sz s)).
+  { destruct ev; cbn [run_event].
+    - apply n_Start. right. exact HS.
+    - apply nq_Reset. exact HS.
+    - apply (nq_OnReceive (init cfg) nq_init p Hw st HS).
+    - apply nq_OnTimeout. exact HS.
+    - apply nq_OnTransaction. exact HS.
+    - apply nq_OnNewTransaction. exact HS. }
+  unfold step. specialize (Hx (mkM st sc []) eq_refl).
+  destruct (run_event cfg ev (mkM st sc [])) as [[a m]| | | |]; try (split; [discriminate|discriminate]).
+  - destruct Hx as (new & _ & _ & S'). split; [destruct (script m); discriminate|]. intros st' tr. destruct (script m); [|discriminate]. intros [= <- _]. exact S'.
+  - destruct Hx.
+Qed.
+
+Theorem no_panic_first_start st ts sc : Fresh st -> step cfg st (EStart ts) sc <> Panic /\ (forall st' tr, step cfg st (EStart ts) sc = Ok (st', tr) -> Sz st').
+Proof.
+  intros HF. pose proof (n_Start ts st (or_introl HF) (mkM st sc []) eq_refl) as Hx. unfold step. cbn [run_event].
+  destruct (Start cfg ts (mkM st sc [])) as [[a m]| | | |]; try (split; [discriminate|discriminate]).
+  - destruct Hx as (new & _ & _ & S'). split; [destruct (script m); discriminate|]. intros st' tr. destruct (script m); [|discriminate]. intros [= <- _]. exact S'.
+  - destruct Hx.
+Qed.
+
+(* histories: Start on a fresh instance, then any well-formed calls *)
+Inductive Started : nstate -> Prop :=
+| Started0 ts sc st tr : step cfg fresh_state (EStart ts) sc = Ok (st, tr) -> Started st
+| StartedS st ev sc st' tr : Started st -> wf_event ev -> step cfg st ev sc = Ok (st', tr) -> Started st'.
+Theorem started_sized st : Started st -> Sz st.
+Proof.
+  induction 1 as [ts sc st tr Hs|st ev sc st' tr HS IH Hw Hs].
+  - apply (proj2 (no_panic_first_start fresh_state ts sc Fresh_fresh) _ _ Hs).
+  - apply (proj2 (no_panic_step st ev sc IH Hw) _ _ Hs).
+Qed.
+Theorem no_panic st ev sc : Started st -> wf_event ev -> step cfg st ev sc <> Panic.
+Proof. intros HS Hw. apply (no_panic_step st ev sc (started_sized st HS) Hw). Qed.
+Theorem no_panic_at_start ts sc : step cfg fresh_state (EStart ts) sc <> Panic.
+Proof. apply (no_panic_first_start fresh_state ts sc Fresh_fresh). Qed.
 End NoPanic.
